@@ -149,16 +149,23 @@ class ShortOp(Op):
 
         value = copy.deepcopy(self.value.eval(state))
 
+        try:
+            current = state.names[self.name]
+        except LookupError:
+            raise ParserError(f'Undefined variable {self.name}')
+
         if self.op == '+=':
-            state.names[self.name] += value
+            current += value
         elif self.op == '-=':
-            state.names[self.name] -= value
+            current -= value
         elif self.op == '*=':
-            state.names[self.name] *= value
+            current *= value
         elif self.op == '/=':
-            state.names[self.name] /= value
+            current /= value
         else:
             raise ParserError(f'Unsupported short op: {self.op}')
+
+        state.names[self.name] = current
 
         return None
 
